@@ -400,12 +400,13 @@ funcbits(struct func *f, struct type *t, struct value *v, struct bitfield b)
 {
 	int class, bits;
 
+	if (!b.before && !b.after)
+		return v;
 	class = t->size <= 4 ? 'w' : 'l';
-	bits = b.after;
-	if (bits) {
-		bits += (t->size + 3 & ~3) - t->size << 3;
+	/* bits above the field: those of the storage unit, and those of the word above a narrower unit */
+	bits = b.after + ((t->size + 3 & ~3) - t->size << 3);
+	if (bits)
 		v = funcinst(f, ISHL, class, v, mkintconst(bits));
-	}
 	bits += b.before;
 	if (bits)
 		v = funcinst(f, t->u.basic.issigned ? ISAR : ISHR, class, v, mkintconst(bits));
